@@ -158,9 +158,11 @@ const (
 	cLco
 	cClone
 	cGco
+	cFetchX   // git lfs fetch <remote> <ref>... / --all / --recent (c04_refs_verif_test.go)
+	cLfsClone // git lfs clone [--no-checkout|--bare] (c04_refs_verif_test.go)
 )
 
-var cmdNames = []string{"fetch", "pull", "lco", "clone", "gco"}
+var cmdNames = []string{"fetch", "pull", "lco", "clone", "gco", "fetch-refs", "lfsclone"}
 
 const (
 	stDefault = iota
@@ -278,6 +280,11 @@ type caseSpec struct {
 	perturb  []pert
 	fault    int    // server fault for one object (faultNames)
 	faultOid string // the object the fault concerns
+	// cFetchX / cLfsClone only (c04_refs_verif_test.go)
+	refs      []refArg  // ref arguments of git lfs fetch, in command-line order
+	fmode     int       // fmRefs, fmAll, fmRecent
+	recent    recentCfg // --recent settings
+	cloneMode int       // cmPlain, cmNoCheckout, cmBare
 }
 
 func (cs *caseSpec) id() string {
@@ -289,11 +296,18 @@ func (cs *caseSpec) id() string {
 	for i, l := range cs.loc {
 		loc[i] = byte('0' + l)
 	}
-	return fmt.Sprintf("%s|w%d|%s|head=%s|target=%s|lco=%s|cwd=%s|f=%s|skip=%v|st=%s|loc=%s|%s|fault=%s", cs.slice, cs.world, cmdNames[cs.cmd], cs.head, cs.target,
+	id := fmt.Sprintf("%s|w%d|%s|head=%s|target=%s|lco=%s|cwd=%s|f=%s|skip=%v|st=%s|loc=%s|%s|fault=%s", cs.slice, cs.world, cmdNames[cs.cmd], cs.head, cs.target,
 		cs.lco.name, cs.cwd, cs.filter.name, cs.skip, storageNames[cs.storage], loc, strings.Join(pp, ","), cs.faultName())
+	if cs.cmd >= cFetchX {
+		id += cs.refsID()
+	}
+	return id
 }
 
 func (cs *caseSpec) trivial() bool {
+	if cs.cmd >= cFetchX {
+		return false
+	}
 	for _, l := range cs.loc {
 		if l != 0 {
 			return false
@@ -384,8 +398,9 @@ func prAllBut(p string) preset {
 	return preset{"allbut:" + p, func(t tree, n []string) int { return (1<<len(n) - 1) &^ (1 << oidIndex(n, gitx.Oid(t[p]))) }}
 }
 
-func makePlan(defs []*worldDef, thorough bool) *plan {
+func makePlan(allDefs []*worldDef, thorough bool) *plan {
 	pl := &plan{}
+	defs := allDefs[:refsW] // the generic slices range over the first three worlds; world refs3 has its own slices (addRefSlices)
 	add := func(name string, gen func(in chooser) *caseSpec) {
 		pl.slices = append(pl.slices, sliceDef{name, func(in chooser) *caseSpec {
 			cs := gen(in)
@@ -688,6 +703,7 @@ func makePlan(defs []*worldDef, thorough bool) *plan {
 			return cs
 		})
 	}
+	addRefSlices(add, allDefs, thorough)
 	return pl
 }
 
@@ -700,7 +716,7 @@ func (cs *caseSpec) tree(defs []*worldDef) tree {
 			return d.trees[cs.target]
 		}
 		return d.trees[cs.head]
-	case cClone:
+	case cClone, cLfsClone:
 		if cs.target != "" {
 			return d.trees[cs.target]
 		}
@@ -781,6 +797,9 @@ func afterClass(e gitx.TreeEntry, ok bool, pre gitx.TreeEntry, preOK bool, shaD,
 func (ev *env) run(x *vx.X) vx.Result {
 	sl := ev.plan.slices[x.In(len(ev.plan.slices))]
 	cs := sl.gen(x.In)
+	if cs.cmd >= cFetchX {
+		return ev.execRefs(cs)
+	}
 	return ev.execCase(cs)
 }
 
@@ -1370,7 +1389,7 @@ func TestVerifC04(t *testing.T) {
 	gitx.CmdTimeout = 90 * time.Second
 	srv := fakelfs.New()
 	srv.Put(cX)
-	defs := worlds()
+	defs := append(worlds(), refsWorld())
 	ev := &env{gw: gw, srv: srv, defs: defs, built: map[int]*builtWorldEntry{}, bases: map[baseKey]*baseEntry{}, root: gw.Root,
 		cases: filepath.Join(gw.Root, "cases"), faults: map[string]int{}}
 	os.MkdirAll(ev.cases, 0755)
@@ -1425,7 +1444,10 @@ func TestVerifC04(t *testing.T) {
 	for _, s := range sts {
 		stateNames = append(stateNames, pstateNames[s])
 	}
-	c.Bounds["worlds"] = []string{"linear: c1{a,b}=v1 -> c2{a',b,dir/c}=main", "merge: c1=v1; feature{a,b',dir/c}; main{a',b}; merge{a',b',dir/c}=main", "dups: {a.bin==dir/c.bin, b.bin 10 bytes, e.bin empty, 'sp ace.bin' 1024 bytes}=main"}
+	c.Bounds["worlds"] = []string{"linear: c1{a,b}=v1 -> c2{a',b,dir/c}=main", "merge: c1=v1; feature{a,b',dir/c}; main{a',b}; merge{a',b',dir/c}=main", "dups: {a.bin==dir/c.bin, b.bin 10 bytes, e.bin empty, 'sp ace.bin' 1024 bytes}=main",
+		"refs3: c0{a=V,s=S}=tag v1; main{a=M,s=S}, one{a=O,s=S}, two{b=T,s=S} (a.bin removed), old{a=D,s=S} (dated 2005) each one commit on c0: every ref has one object of its own plus the shared S; the clone has local branches main, one and origin/{main,one,two,old}"}
+	c.Bounds["max_refs_on_fetch_command_line"] = 3
+	c.Bounds["recent_window_days"] = recentDays
 	c.Bounds["perturbation_alphabet"] = stateNames
 	c.Bounds["slices"] = per
 	c.Bounds["planned_cases"] = total
@@ -1436,7 +1458,11 @@ func TestVerifC04(t *testing.T) {
 		"per-file working-tree perturbation, server fault for one object {none, object-level 404 in every batch response, object-level 503 in the first batch response, storage GET 404, storage GET 500 once}); the explored set is a union of COMPLETE products (slices; sizes under bounds.slices): " +
 		"fetch/* = (ref checked out, ref argument) x every subset of needed objects already local x filters; filter-sources/* = {fetch, pull} x store subsets x the source of the include list {none, -I, lfs.fetchinclude, -I over another configured value} x the same four sources of the exclude list; pull/* = ref x subsets x filters x skip-smudge; " +
 		"pull-perturb2, lco-perturb2 = every ordered pair of perturbation states on two files x store presets x filters / path arguments; *-perturb1* = every state of one file x store presets {none, all, only that object, all but it} x filters x endpoint / invocation variants of lfs checkout (incl. from a sub-directory); " +
-		"faults/* = {clone [-b], pull, git checkout (from,to)} x 4 fault kinds x which needed object is hit (thorough: x every subset already local x 2 filters); storage-* = {fetch, pull, lfs checkout} x every location vector (3^3 with a reference store, 2^3 with lfs.storage) x 2 selections; clone/*, clone-reference, git-checkout/* = branch or (from,to) pair x subsets x configured filters x skip-smudge.  " +
+		"faults/* = {clone [-b], pull, git checkout (from,to)} x 4 fault kinds x which needed object is hit (thorough: x every subset already local x 2 filters); " +
+		"multifetch/refs3 = git lfs fetch origin <ref>... for every ordered sequence of 1, 2 and 3 distinct refs out of {local branch one, remote-tracking origin/two, tag v1} (thorough: also main; x {no filter, -X a.bin}) x ({no fault} x every subset of the needed objects already local + 4 fault kinds x each needed object (needed by only the first / a middle / the last / all refs) x the other objects {none, all} local); multifetch-names = two refs typed as {one, refs/heads/one, origin/one} x {v1, refs/tags/v1} x both orders x {no fault, fault on the first ref's object, on the tag's object}; " +
+		"fetch-all/refs3 = git lfs fetch --all [origin <ref>...] for {no ref, every ordered sequence of 1..2 refs (thorough: out of 4 refs)} x faults as before, demanded = every object of every commit reachable from the refs (all refs when none is given), fetch-all-cfgfilter = the same commands under a configured lfs.fetchexclude / lfs.fetchinclude (documented to be ignored by --all); " +
+		"fetch-recent/refs3 = {--recent, lfs.fetchrecentalways} x lfs.fetchrecentremoterefs {default, false} x lfs.fetchrecentcommitsdays {0, 3650} x ref arguments {none, v1} (thorough: more arguments, -X s.bin) x faults on every demanded object, fetch-recent-commits-only = lfs.fetchrecentrefsdays=0 with lfs.fetchrecentcommitsdays=3650 x ref arguments x faults, demanded = objects of the named refs + of the recent branches (commit date inside the window; branch old is outside) + previous versions of files changed by the commits of those refs; " +
+		"pull-switch/refs3 = git lfs pull on {one, two, v1} after main x every subset of the objects of main and of the new head already local x {no fault, 4 fault kinds x each object of the new head}; lfsclone/refs3 = git lfs clone {plain, --no-checkout, --bare} x {default branch, -b one, -b v1} x {no filter, -X s.bin} (thorough: 5 filters) x {no fault, 4 fault kinds x each object of the cloned ref}; storage-* = {fetch, pull, lfs checkout} x every location vector (3^3 with a reference store, 2^3 with lfs.storage) x 2 selections; clone/*, clone-reference, git-checkout/* = branch or (from,to) pair x subsets x configured filters x skip-smudge.  " +
 		"distinct_nontrivial = distinct cases other than the plain one (empty local store, no filter, no perturbation, default storage, no skip)"
 	c.Assumptions = []string{
 		"'the pointer recorded for it': a working-tree file counts as the recorded pointer iff it is smaller than 1024 bytes and decodes (docs/spec.md, incl. accepted non-canonical forms: CRLF, legacy version URL, ext lines, surrounding whitespace, any mode) to the oid AND size of the pointer blob at that path in HEAD (index == HEAD for every LFS path except under 'deleted-staged'); every other existing file (user text, >=1024-byte padding of the pointer, the object bytes, other/ghost pointers, undecodable near-pointers, the same oid with another size, empty file, read-only or executable edits, plain and untracked files) must be byte-, mode- and type-identical after `git lfs pull` / `git lfs checkout`, whatever the exit status",
@@ -1449,6 +1475,10 @@ func TestVerifC04(t *testing.T) {
 		"git checkout <ref>: only paths whose blob differs between the two refs are written by Git and judged; git clone: every path",
 		"'valid pointer' after the command = the canonical pointer text of the recorded oid/size, or the unchanged previous bytes",
 		"'successful' = exit status 0; after a failed command only the non-clobbering clause is judged; store clause for pull skips paths deleted in the index",
+		"several refs: `git lfs fetch <remote> <ref>...` fetches at every named ref (git-lfs-fetch(1)); after exit 0 the include/exclude-selected objects of the tip tree of EVERY named ref are demanded, whatever the order; `--all` demands every object referenced by any commit reachable from the named refs (from all refs when none is named) and ignores configured include/exclude paths (documented); `--recent` / lfs.fetchrecentalways demand, in addition to the named (or current) ref, the objects of local branches and of the fetched remote's tracking branches whose tip commit lies inside lfs.fetchrecentrefsdays (tracking branches only unless lfs.fetchrecentremoterefs=false; tags and branches outside the window are not demanded) and, with lfs.fetchrecentcommitsdays > 0, the previous versions of files changed by commits inside that window; objects fetched beyond the demand are never an error; fetch must leave the whole working tree untouched ('This does not update the working copy') and every object that was valid before valid",
+		"dates: all commits are dated 2024-01-01 except branch old (2005-06-01); the recent window is 3650 days, so for any wall-clock date between 2024-01-02 and 2033-12-29 the 2024 tips are inside and the 2005 tip is outside the window by years (no dependence on the time of day)",
+		"`git lfs clone` (deprecated front end: clone without filters, then pull; with --no-checkout/--bare 'just fetch'): -I/-X override lfs.fetchinclude/lfs.fetchexclude (git-lfs-clone(1)); after exit 0 every selected path of the cloned ref has a hash-valid object in the store of the new repository (.git/lfs, or <dir>/lfs for --bare) and, without --no-checkout/--bare, the original bytes, excluded paths hold the canonical pointer; with --no-checkout/--bare no working-tree file is judged (documented: no checkout); a plain `git clone --no-checkout` never runs git-lfs and is not enumerated",
+		"fingerprints of the several-ref slices carry ',download-failed' when the missing object is the one whose download the server refused (a lost failure status) and no suffix when an object is missing although nothing failed (an object that was never requested)",
 		"the local store starts intact: it holds exactly the stated subset of valid objects; the fake server is complete; a fault concerns exactly one object of one case (per-case endpoint URL, deterministic counters, no timing; fault cases run with lfs.transfer.maxretries=3 and lfs.transfer.maxretrydelay=1 so that a permanently failing object costs seconds, not minutes); linear and one-merge histories, <=5 LFS files, <=3 distinct objects per tree; git 2.39.5 (ls-tree code path of ScanLFSFiles); subprocess timeout 90 s is a tool guard (=> inconclusive)",
 	}
 	workers := 2 * runtime.NumCPU()
